@@ -101,7 +101,14 @@ func Signature() (sig string, detail string) {
 	if len(bufferWaiters) == 0 {
 		bufferWaiters = Match(gs, "semacquire", "accountant.(*buffer)")
 	}
+	gossipWaiters := Match(gs, "sync.RWMutex", "gossip.(*gossiper)")
+	if len(gossipWaiters) == 0 {
+		gossipWaiters = Match(gs, "semacquire", "gossip.(*gossiper)", "RWMutex")
+	}
 	parts := []string{}
+	if len(gossipWaiters) > 0 {
+		parts = append(parts, "peer-table-lock-waiters")
+	}
 	if len(walkers) > 0 {
 		parts = append(parts, "walker-parked-in-chan-send")
 	}
@@ -121,7 +128,7 @@ func Signature() (sig string, detail string) {
 		parts = append(parts, "orphan-buffer-lock-waiters")
 	}
 	var d []string
-	for _, set := range [][]G{walkers, writers, readers, chanSenders, bufferWaiters} {
+	for _, set := range [][]G{walkers, writers, readers, chanSenders, bufferWaiters, gossipWaiters} {
 		for i, g := range set {
 			if i < 2 {
 				t := g.Text
